@@ -2,6 +2,7 @@ package vc
 
 import (
 	"fmt"
+	"os"
 	"go/token"
 	"go/types"
 	"sort"
@@ -161,6 +162,13 @@ func (pa *provAnalysis) analyze(fn *ssa.Function) bool {
 	isInit := fn.Name() == "init" || strings.HasPrefix(fn.Name(), "init#")
 	// content loaded from an address with the given roots
 	loadFrom := func(addr ssa.Value) Roots {
+		if a := baseAlloc(addr); a != nil && a != addr {
+			// field or element of a local aggregate: per-allocation content
+			if !escapes(a) {
+				return cell[a]
+			}
+			return cell[a] | freshContent
+		}
 		if a, ok := addr.(*ssa.Alloc); ok {
 			if isCell(a) || !escapes(a) {
 				return cell[a]
@@ -211,19 +219,42 @@ func (pa *provAnalysis) analyze(fn *ssa.Function) bool {
 		}
 	}
 	// local fix-point (cells and fresh content feed back)
-	for pass := 0; pass < 12; pass++ {
+	cellOut := map[*ssa.BasicBlock]map[*ssa.Alloc]Roots{}
+	for pass := 0; pass < 16; pass++ {
 		localChanged = false
 		fcBefore := freshContent
 		for _, b := range fn.Blocks {
+			// flow-sensitive contents of local variables: join over predecessors
+			for k := range cell {
+				delete(cell, k)
+			}
+			for _, p := range b.Preds {
+				for a, r := range cellOut[p] {
+					cell[a] |= r
+				}
+			}
 			for _, ins := range b.Instrs {
 				switch x := ins.(type) {
 				case *ssa.Store:
-					if a, ok := x.Addr.(*ssa.Alloc); ok {
+					if a := baseAlloc(x.Addr); a != nil && a != x.Addr {
 						if cell[a]|get(x.Val) != cell[a] {
 							cell[a] |= get(x.Val)
 							localChanged = true
 						}
-						if isCell(a) || !escapes(a) {
+						if !escapes(a) {
+							continue
+						}
+					}
+					if a, ok := x.Addr.(*ssa.Alloc); ok {
+						if isCell(a) {
+							cell[a] = get(x.Val) // strong update: the variable now holds exactly this value
+							continue
+						}
+						if cell[a]|get(x.Val) != cell[a] {
+							cell[a] |= get(x.Val)
+							localChanged = true
+						}
+						if !escapes(a) {
 							continue
 						}
 					}
@@ -300,9 +331,33 @@ func (pa *provAnalysis) analyze(fn *ssa.Function) bool {
 					pa.call(fn, x, get, set, write, &freshContent)
 				}
 			}
+			prev := cellOut[b]
+			snap := make(map[*ssa.Alloc]Roots, len(cell))
+			for a, r := range cell {
+				snap[a] = r
+				if prev == nil || prev[a] != r {
+					localChanged = true
+				}
+			}
+			cellOut[b] = snap
 		}
 		if !localChanged && freshContent == fcBefore {
 			break
+		}
+	}
+	if os.Getenv("VCGO_PROVDEBUG") == E.P.Names[fn] {
+		fmt.Printf("prov %s: freshContent=%b\n", E.P.Names[fn], freshContent)
+		for _, b := range fn.Blocks {
+			for _, ins := range b.Instrs {
+				if v, ok := ins.(ssa.Value); ok && prov[v]&bit(rootGlob) != 0 {
+					fmt.Printf("   G: %s = %s\n", v.Name(), ins.String())
+				}
+			}
+		}
+		for a, r := range cell {
+			if r&bit(rootGlob) != 0 {
+				fmt.Printf("   G cell: %s (%s)\n", a.Name(), a.Comment)
+			}
 		}
 	}
 	return changed
@@ -429,7 +484,16 @@ func (pa *provAnalysis) call(fn *ssa.Function, ci ssa.CallInstruction, get func(
 	if ext != nil {
 		if !knownPure[extName(ext)] {
 			// writes whatever its pointer arguments reach
-			for _, a := range actuals {
+			roA := map[int]bool{}
+			if ect := E.S.Contracts["extern:"+extName(ext)]; ect != nil {
+				for _, k := range ect.ReadonlyActuals {
+					roA[k] = true
+				}
+			}
+			for ai, a := range actuals {
+				if roA[ai] {
+					continue
+				}
 				ks := typeReachKeys(a.Type(), map[string]bool{}, 0)
 				if len(ks) > 0 {
 					write(get(a), ks, argRoots, c.Pos(), "external "+extName(ext))
@@ -440,7 +504,18 @@ func (pa *provAnalysis) call(fn *ssa.Function, ci ssa.CallInstruction, get func(
 	}
 	if dyn {
 		// implementations outside the repository / unknown function values: may write what the arguments reach
-		for _, a := range actuals {
+		ro := map[int]bool{}
+		if c.IsInvoke() {
+			if ict := E.S.Contracts[ifaceKey(c.Value.Type(), c.Method.Name())]; ict != nil {
+				for _, k := range ict.ReadonlyArgs {
+					ro[k+1] = true // actuals[0] is the receiver
+				}
+			}
+		}
+		for ai, a := range actuals {
+			if ro[ai] {
+				continue
+			}
 			ks := typeReachKeys(a.Type(), map[string]bool{}, 0)
 			if len(ks) > 0 {
 				write(get(a), ks, argRoots, c.Pos(), "dynamic call")
@@ -501,6 +576,10 @@ func (pa *provAnalysis) allocEscapes(a *ssa.Alloc) bool {
 					esc = true
 				}
 			case *ssa.UnOp, *ssa.DebugRef:
+			case *ssa.FieldAddr, *ssa.IndexAddr:
+				if addrEscapes(x.(ssa.Value), 0) {
+					esc = true
+				}
 			case *ssa.MakeClosure:
 				cl := x.Fn.(*ssa.Function)
 				for k, b := range x.Bindings {
@@ -528,4 +607,52 @@ func (pa *provAnalysis) allocEscapes(a *ssa.Alloc) bool {
 	}
 	// not cached while summaries are still growing: closure summaries may change
 	return esc
+}
+
+// baseAlloc follows field/element address computations back to a local allocation.
+func baseAlloc(v ssa.Value) *ssa.Alloc {
+	for i := 0; i < 8; i++ {
+		switch x := v.(type) {
+		case *ssa.Alloc:
+			return x
+		case *ssa.FieldAddr:
+			v = x.X
+		case *ssa.IndexAddr:
+			if _, ok := under(x.X.Type()).(*types.Pointer); ok {
+				v = x.X // element of an array held in a local
+			} else {
+				return nil
+			}
+		default:
+			return nil
+		}
+	}
+	return nil
+}
+
+// addrEscapes: a derived address is used for anything but loads, stores through it and further field/element addressing.
+func addrEscapes(v ssa.Value, depth int) bool {
+	if depth > 6 {
+		return true
+	}
+	refs := v.Referrers()
+	if refs == nil {
+		return true
+	}
+	for _, r := range *refs {
+		switch x := r.(type) {
+		case *ssa.Store:
+			if x.Val == v {
+				return true
+			}
+		case *ssa.UnOp, *ssa.DebugRef:
+		case *ssa.FieldAddr, *ssa.IndexAddr:
+			if addrEscapes(x.(ssa.Value), depth+1) {
+				return true
+			}
+		default:
+			return true
+		}
+	}
+	return false
 }
